@@ -49,6 +49,10 @@ def routes(kw):
     yield 'treespec_list(of dict specs)', lambda: optree.treespec_list([optree.treespec_dict(d, **kw), L], **kw)
     yield 'flatten', lambda: optree.tree_structure({'b': 1, 'a': (2, 3), 'r': Rec(u=4, t=5)}, **kw)
     yield 'compose', lambda: optree.tree_structure({'b': 1, 'a': 2}, **kw).compose(optree.treespec_dict({'n': L, 'm': L}, **kw))
+    yield 'compose(namespace-less outer, namespaced inner)', lambda: optree.tree_structure([0, {'k': 0}], none_is_leaf=kw['none_is_leaf']).compose(
+        optree.tree_structure(Rec(u=1, t=2), none_is_leaf=kw['none_is_leaf'], namespace=NS))
+    yield 'broadcast(namespace-less, namespaced)', lambda: optree.tree_structure([0, 0], none_is_leaf=kw['none_is_leaf']).broadcast_to_common_suffix(
+        optree.tree_structure([Rec(u=1), 2], none_is_leaf=kw['none_is_leaf'], namespace=NS))
     yield 'child', lambda: optree.treespec_list([optree.treespec_dict(d, **kw), L], **kw).child(0)
     yield 'broadcast', lambda: optree.treespec_dict(d, **kw).broadcast_to_common_suffix(optree.tree_structure({'b': (1, 2), 'a': (1, 2), 'c': 3}, **kw))
     yield 'transform', lambda: optree.treespec_dict(d, **kw).transform(lambda s: s, lambda s: T)
@@ -58,9 +62,11 @@ def cases(tier):
     for mode in ('sorted', 'ins_global', 'ins_ns'):
         for nil in (False, True):
             for ns in ('', NS):
-                for i in range(14):
+                for i in range(16):
                     for proto in ((2, 5) if tier == 'quick' else (2, 3, 4, 5)):
-                        yield (mode, nil, ns, i, proto)
+                        for load_mode in ('same', 'sorted', 'ins_global', 'ins_ns'):
+                            if load_mode != mode:
+                                yield (mode, nil, ns, i, proto, load_mode)
 
 def facts(s):
     leaves = list(range(s.num_leaves))
@@ -78,9 +84,34 @@ def facts(s):
             'rebuilt': repr(tree), 'key_orders': order(tree, [])}
 
 def check(spec):
-    mode, nil, ns, i, proto = spec
+    mode, nil, ns, i, proto, load_mode = spec
     kw = dict(none_is_leaf=nil, namespace=ns)
     bad = []
+    if load_mode != 'same':
+        # dumped under one dict-order mode, loaded under another one: the loaded treespec still equals the dumped one and
+        # unflattens in the recorded key order
+        with mode_ctx(mode):
+            name, make = list(routes(kw))[i]
+            try:
+                s = make()
+            except Exception:
+                return []
+            data = pickle.dumps(s, protocol=proto)
+            fs = facts(s)
+        what = f'treespec {s!r} obtained via {name} (dumped in mode {mode}, loaded in mode {load_mode}, none_is_leaf={nil}, namespace={ns!r})'
+        with mode_ctx(load_mode):
+            try:
+                t = pickle.loads(data)
+                ft = facts(t)
+                again = pickle.loads(pickle.dumps(t, protocol=proto))
+            except Exception as e:
+                return [('C11.roundtrip_across_dict_order_modes', f'{what}: raised {type(e).__name__}: {e}')]
+            if not (t == s and hash(t) == hash(s) and again == s):
+                bad.append(('C11.roundtrip_across_dict_order_modes', f'{what}: loaded {t!r} is not equal to the dumped treespec'))
+            for k in fs:
+                if fs[k] != ft[k]:
+                    bad.append(('C11.roundtrip_across_dict_order_modes', f'{what}: {k} before {fs[k]!r}, after loading {ft[k]!r}'))
+        return bad
     with mode_ctx(mode):
         name, make = list(routes(kw))[i]
         try:
@@ -111,7 +142,7 @@ def check(spec):
 
 def run(tier, seed):
     return run_core('c11_extra', CORE, tier,
-                    scope='14 ways to obtain a treespec without flattening (constructors, compose, child, broadcast, transform, one_level) x '
-                          '{sorted, insertion-ordered globally, insertion-ordered in one namespace} x none_is_leaf x 2 namespaces x pickle protocols',
+                    scope='16 ways to obtain a treespec without flattening (constructors, compose, child, broadcast, transform, one_level) x '
+                          '{sorted, insertion-ordered globally, insertion-ordered in one namespace} x none_is_leaf x 2 namespaces x pickle protocols x the dict-order mode at load time',
                     rule='one evaluation = one treespec pickled, unpickled and compared on ==, hash, repr, paths, accessors, entries, children, '
                          'rebuilt tree and rebuilt key orders')
